@@ -24,8 +24,8 @@ impl World {
         let bases = base_states();
         let mut base_files = vec![];
         for (i, (name, script)) in bases.iter().enumerate() {
-            if script.is_empty() {
-                base_files.push(None);
+            if script.is_empty() || name.starts_with("live_") {
+                base_files.push(None); // built by replaying the script on the opened database
                 continue;
             }
             let path = scratch.path(&format!("base{i}.agdb"));
@@ -40,12 +40,29 @@ impl World {
         }
         World { alpha: alphabet_h(), bases, base_files, _scratch: scratch }
     }
+    /// Copies the prepared base file (if the base has one) to `path`; returns the
+    /// script that still has to be replayed on the opened database (live bases).
+    pub fn stage_base(&self, path: &str, base: usize) -> Result<&[Step], String> {
+        match &self.base_files[base] {
+            Some(f) => {
+                std::fs::copy(f, path).map_err(|e| format!("copy base file: {e}"))?;
+                Ok(&[])
+            }
+            None => Ok(&self.bases[base].1),
+        }
+    }
     /// Opens `variant` on a private copy of the prepared base state.
     pub fn open_base(&self, variant: Variant, path: &str, base: usize) -> Result<Box<dyn DbLike>, String> {
         if let Some(f) = &self.base_files[base] {
             std::fs::copy(f, path).map_err(|e| format!("copy base file: {e}"))?;
         }
-        variant.open(path).map_err(|e| format!("open: {}", e.description))
+        let mut db = variant.open(path).map_err(|e| format!("open: {}", e.description))?;
+        if self.base_files[base].is_none() {
+            for s in &self.bases[base].1 {
+                s.run(db.as_mut()).map_err(|e| format!("base script failed: {}", e.description))?;
+            }
+        }
+        Ok(db)
     }
     pub fn replay_json(&self, base: usize, hist: &[usize], extra: Value) -> Value {
         json!({"base": self.bases[base].0, "history": hist.iter().map(|i| self.alpha[*i].0).collect::<Vec<_>>(), "detail": extra})
@@ -208,7 +225,7 @@ pub fn run_c06(args: &Args) -> i32 {
     report.set("variants", json!(ALL_VARIANTS.iter().map(|v| v.name()).collect::<Vec<_>>()));
     report.set("distinct_step_outcomes", json!(outcomes.len()));
     report.set("exhaustive", json!(true));
-    report.set("rule", json!("every history of <= `depth` steps over the 37-step alphabet H from 5 base states, executed in lock-step on the six variants; every step result and, at the end of every history, the full observable dump (all elements, values, keys, counts, aliases, indexes, index searches, four traversals per node) must be identical. states = distinct dumps."));
+    report.set("rule", json!("every history of <= `depth` steps over the 37-step alphabet H from 6 base states, executed in lock-step on the six variants; every step result and, at the end of every history, the full observable dump (all elements, values, keys, counts, aliases, indexes, index searches, four traversals per node) must be identical. states = distinct dumps."));
     report.assume("values, keys, aliases and ids outside the alphabet are not covered; histories longer than the depth are not covered");
     report.finish()
 }
@@ -431,6 +448,6 @@ pub fn run_c05(args: &Args) -> i32 {
     report.set("variants", json!(variants.iter().map(|v| v.name()).collect::<Vec<_>>()));
     report.set("maintenance_ops", json!(MAINTS.iter().map(|m| format!("{m:?}")).collect::<Vec<_>>()));
     report.set("exhaustive", json!(true));
-    report.set("rule", json!("at every node of the history tree (all histories of <= depth steps over H from 5 base states) each maintenance operation (and every ordered pair, for histories up to the stated length) is applied to a freshly replayed database; the full ordered dump must equal that of the never-maintained database, and must still be equal after each of 3 (quick) / 7 (thorough) further mutating steps"));
+    report.set("rule", json!("at every node of the history tree (all histories of <= depth steps over H from 6 base states) each maintenance operation (and every ordered pair, for histories up to the stated length) is applied to a freshly replayed database; the full ordered dump must equal that of the never-maintained database, and must still be equal after each of 3 (quick) / 7 (thorough) further mutating steps"));
     report.finish()
 }
